@@ -124,18 +124,23 @@ namespace occa {
     if (offset + bytes <= size) {
       return slice(offset, bytes);
     } else {
-      resize(reserved + alignedBytes);
+      /*
+      The free space is fragmented. Pack the reservations, even if the
+      pool keeps its size, so that [reserved, size) is free
+      */
+      resize(reserved + alignedBytes, true);
       return slice(reserved, bytes);
     }
   }
 
-  void modeMemoryPool_t::resize(const udim_t bytes) {
+  void modeMemoryPool_t::resize(const udim_t bytes,
+                                const bool forcePacking) {
 
     OCCA_ERROR("Cannot resize memoryPool below current usage"
                "(reserved: " << reserved << ", bytes: " << bytes << ")",
                reserved <= bytes);
 
-    if (size == bytes) return; /*Nothing to do*/
+    if (size == bytes && !forcePacking) return; /*Nothing to do*/
 
     const udim_t alignedBytes = ((bytes + alignment - 1) / alignment) * alignment;
 
